@@ -32,3 +32,35 @@ Proof.
       * exact (IH s1 I1).
     + exists s. split; [exact Hs|reflexivity].
 Qed.
+
+(* [elt(x) for x in l] when elt is total *)
+Lemma listcomp_all_map (g : pv -> pv) (elt : pv -> res pv) l :
+  (forall x, elt x = Ok (g x)) -> py_listcomp l (fun _ => Ok (PBool true)) elt = Ok (map g l).
+Proof.
+  intros He. induction l as [|a l IH]; [reflexivity|].
+  cbn [py_listcomp bind truthy map]. rewrite He, IH. reflexivity.
+Qed.
+
+(* [elt(x) for x in map emb l] when elt decides like f (errors propagate): map_res *)
+Lemma listcomp_map_res {A} (emb : A -> pv) (f : A -> res bool) (elt : pv -> res pv) l :
+  (forall a, elt (emb a) = bind (f a) (fun b => Ok (PBool b))) ->
+  py_listcomp (map emb l) (fun _ => Ok (PBool true)) elt = bind (map_res f l) (fun bs => Ok (map PBool bs)).
+Proof.
+  intros He. induction l as [|a l IH]; [reflexivity|].
+  cbn [map py_listcomp bind truthy map_res]. rewrite He. destruct (f a) as [b|e]; cbn [bind]; [|reflexivity].
+  rewrite IH. destruct (map_res f l) as [bs|e]; reflexivity.
+Qed.
+
+Lemma existsb_truthy_PBool bs : existsb truthy (map PBool bs) = existsb (fun b => b) bs.
+Proof. induction bs as [|b bs IH]; [reflexivity|]. cbn. rewrite IH. reflexivity. Qed.
+
+Lemma any_res_map {A B} (g : A -> B) (f : B -> res bool) l : any_res f (map g l) = any_res (fun a => f (g a)) l.
+Proof. induction l as [|a l IH]; [reflexivity|]. cbn [map any_res]. rewrite IH. reflexivity. Qed.
+
+Lemma py_index0_cons x l : py_index (PList (x :: l)) (PInt 0) = Ok x.
+Proof.
+  unfold py_index. cbn [elems bind Z.ltb Z.compare]. cbn [orb].
+  destruct (Z.leb_spec (Z.of_nat (List.length (x :: l))) 0) as [H|H].
+  - exfalso. cbn [List.length] in H. rewrite Nat2Z.inj_succ in H. pose proof (Nat2Z.is_nonneg (List.length l)). apply Z.le_succ_l in H. apply (Z.lt_irrefl 0). eapply Z.le_lt_trans; [exact H0|exact H].
+  - reflexivity.
+Qed.
